@@ -281,6 +281,23 @@ Theorem c02_pipeline_is_a_silencer_history x lbl cfg c h P P' outs :
   prun cfg c x lbl P h = Some (P', outs) -> fst (crun c x (p_sc P) (sview x lbl cfg c P h)) = p_sc P'.
 Proof. exact (prun_sil_proj x lbl cfg c h P P' outs). Qed.
 
+(* THE OTHER DIRECTION, composed with the bounded response of C01: from a state in which the group is idle and holds
+   a firing version of alert [a], along any product run in which — at every flush — no stored silence mutes a (judged on
+   the silence store of that instant: e.g. from the moment its last silence expired or ended), the other stages do not
+   drop it, a stays firing until T and integration i accepts deliveries: once the clock has passed
+   (armed deadline) + (flush timeout), integration i HAS BEEN NOTIFIED of a as firing, or its log entry already lists
+   a as firing (the receiver has been told before; C04 governs repeats). So un-silencing takes effect at the next
+   flush, as silencing does. *)
+From AM Require Import Proofs.GroupLiveness.
+Theorem c02_unsilenced_alert_is_notified x msf lbl cfg c a i T h P P' outs g M :
+  PInv x msf lbl cfg P -> phist_ok x msf lbl cfg c P h -> prun cfg c x lbl P h = Some (P', outs) ->
+  pfair x lbl cfg c a i T P h ->
+  s_group (p_g P) = Some g -> gr_flight g = None -> has_x a T g ->
+  Z.max (gr_deadline g) (s_clock (p_g P)) <= M -> M <= T -> (i < length (g_ints cfg))%nat -> 0 <= g_timeout cfg ->
+  M + g_timeout cfg < s_clock (p_g P') ->
+  notified a i outs \/ ever cfg (listed a i) (p_g P) (pview cfg c x lbl P h).
+Proof. exact (unsilenced_is_notified x msf lbl cfg c a i T h P P' outs g M). Qed.
+
 (* ---------- non-vacuity: a silence on alert 1, alerts 1 and 2 fire, the first flush notifies 2 only; the silence is
    expired; the next flush notifies 1 and 2 ---------- *)
 Definition px_lbl (a : Z) : labels := if a =? 1 then [("a", "1")] else [("a", "2")].
@@ -304,7 +321,32 @@ Example c02_pipeline_nonvacuous :
     (171, EFlushEnd) ].
 Proof. vm_compute. repeat split; reflexivity. Qed.
 
+(* non-vacuity of c02_unsilenced_alert_is_notified: the state after the first seven events of px_hist (first flush done,
+   silence still active) is idle and holds alert 1 firing; the rest of the run (expiry, next flush, delivery) meets
+   the hypotheses for alert 1, T = any instant up to its (unset) end, M = 170 *)
+Example c02_unsilenced_nonvacuous :
+  match prun px_cfg ex_c ex_x px_lbl (pinit px_cfg 0) (firstn 7 px_hist) with
+  | Some (P, _) =>
+      phist_ok ex_x ex_msf px_lbl px_cfg ex_c P (skipn 7 px_hist) /\
+      pfair ex_x px_lbl px_cfg ex_c 1 0 100000 P (skipn 7 px_hist) /\
+      match s_group (p_g P) with   (* idle, armed for 170, holds alert 1 with no end time: has_x 1 T g for every T *)
+      | Some g => gr_flight g = None /\ gr_deadline g = 170 /\ s_clock (p_g P) = 121 /\ In (Group.mkA 1 110 0 110) (gr_alerts g)
+      | None => False
+      end /\
+      match prun px_cfg ex_c ex_x px_lbl P (skipn 7 px_hist ++ [(200, PGrp EEnd)]) with
+      | Some (P', outs) => s_clock (p_g P') = 200 /\ g_timeout px_cfg = 20 /\
+                           In (ONotify 0 RNewAlerts [mkF 1 false 110; mkF 2 false 115] OK) outs
+      | None => False
+      end
+  | None => False
+  end.
+Proof.
+  vm_compute. split; [repeat split|]. split; [repeat split; intros; try discriminate; try reflexivity; auto|].
+  split; [repeat split; left; reflexivity|]. split; [reflexivity|]. split; [reflexivity|]. right. left. reflexivity.
+Qed.
+
 Print Assumptions c02_silenced_alert_is_never_notified.
+Print Assumptions c02_unsilenced_alert_is_notified.
 Print Assumptions c02_flush_variable_is_latest_flush.
 Print Assumptions c02_flush_drops_exactly_the_silenced.
 Print Assumptions c02_pipeline_invariant.
